@@ -24,6 +24,13 @@ pub struct Seen {
     pub csum: bool,
     pub produced: Option<Vec<u8>>,
     pub built_seq: u64,
+    /// sequence number of the last build that counted as a change for the
+    /// dependents: any build of a plain target, the first stamped build, and a
+    /// stamped build whose (noise-free) bytes differ from the previous ones
+    pub changed_seq: u64,
+    /// user rewrites (World::touch) of the rule file and of every dependency
+    /// at the time of the build
+    pub touches: Vec<(String, u64)>,
 }
 
 #[derive(Clone, Debug, Default)]
@@ -216,18 +223,41 @@ impl<'a> Ctx<'a> {
             .map(|s| (s.deps.iter().map(|(x, _)| x.clone()).collect(), s.built_seq))
             .unwrap_or_default();
         // a plain dependency rebuilt since (to the same bytes) makes d uncertain too
-        if deps.iter().any(|x| {
-            self.plain_target(x) && self.m.seen.get(x).map_or(false, |sx| sx.built_seq > seq)
-        }) {
-            return true;
+        for x in &deps {
+            if self.m.seen.get(x).map_or(false, |sx| sx.changed_seq > seq) {
+                return true;
+            }
         }
         deps.iter().any(|x| self.needs_rebuild(x, depth + 1))
     }
 
-    fn plain_target(&self, d: &str) -> bool {
-        self.is_target(d) && !self.m.seen.get(d).map_or(false, |s| s.csum)
-            && !declared(self.world, d, &|_| None).map_or(false, |x| x.4)
+    /// Does a rebuild of `d` count as a change for its dependents whatever
+    /// the bytes?  Not if its checksum decides: the last build recorded one
+    /// and -- when `d` is about to be rebuilt -- the rule still calls
+    /// redo-stamp, so that there is an old and a new checksum to compare.
+    fn plain_target(&mut self, d: &str) -> bool {
+        if !self.is_target(d) {
+            return false;
+        }
+        let seen_csum = self.m.seen.get(d).map_or(false, |s| s.csum);
+        let declared_csum = declared(self.world, d, &|_| None).map_or(false, |x| x.4);
+        if self.stack.iter().any(|s| s == d) {
+            return !(seen_csum && declared_csum);
+        }
+        if self.must(d).0 {
+            !(seen_csum && declared_csum)
+        } else {
+            !seen_csum
+        }
     }
+}
+
+/// A file the target consumed was rewritten by the user since (possibly with
+/// identical bytes): its stamp changed, so redo may rebuild the target.
+fn touched(world: &World, s: &Seen) -> bool {
+    s.touches
+        .iter()
+        .any(|(p, n)| world.touch.get(p).copied().unwrap_or(0) != *n)
 }
 
 impl SeenModel {
@@ -300,6 +330,9 @@ impl SeenModel {
                 Some(s) => s.clone(),
                 None => continue,
             };
+            if touched(world, &s) {
+                e.may.insert(t.clone());
+            }
             for (d, _) in &s.deps {
                 if !cx.is_target(d) {
                     continue;
@@ -312,9 +345,8 @@ impl SeenModel {
                     may_roots.push(d.clone());
                 } else {
                     todo.push(d.clone());
-                    if cx.plain_target(d)
-                        && self.seen.get(d).map_or(false, |sd| sd.built_seq > s.built_seq)
-                    {
+                    if self.seen.get(d).map_or(false, |sd| sd.changed_seq > s.built_seq) {
+                        // d changed (perhaps back and forth) after t consumed it
                         e.may.insert(t.clone());
                     }
                 }
@@ -329,7 +361,13 @@ impl SeenModel {
                     continue;
                 }
                 if let Some(s) = self.seen.get(&t) {
-                    if s.deps.iter().any(|(d, _)| e.may.contains(d) && cx.plain_target(d)) {
+                    let mut hit = false;
+                    for (d, _) in &s.deps {
+                        if e.may.contains(d) && cx.plain_target(d) {
+                            hit = true;
+                        }
+                    }
+                    if hit {
                         e.may.insert(t.clone());
                         changed = true;
                     }
@@ -360,6 +398,9 @@ impl SeenModel {
                 }
                 let mut may = cx.must(t).0;
                 if let Some(s) = self.seen.get(t) {
+                    if touched(world, s) {
+                        may = true;
+                    }
                     for (d, _) in &s.deps {
                         if cx.is_target(d)
                             && (e.may.contains(d) || (cx.must(d).0 && !e.must.contains(d)) || e.must.contains(d))
@@ -369,9 +410,7 @@ impl SeenModel {
                         }
                         // a plain dependency rebuilt (to the same bytes) since t's
                         // last build, e.g. by an earlier forced `redo d`
-                        if cx.plain_target(d)
-                            && self.seen.get(d).map_or(false, |sd| sd.built_seq > s.built_seq)
-                        {
+                        if self.seen.get(d).map_or(false, |sd| sd.changed_seq > s.built_seq) {
                             may = true;
                         }
                     }
@@ -426,6 +465,8 @@ impl SeenModel {
                             csum: false,
                             produced: None,
                             built_seq: self.seq,
+                            changed_seq: self.seq,
+                            touches: Vec::new(),
                         },
                     );
                 }
@@ -460,6 +501,19 @@ impl SeenModel {
                     (d.clone(), b)
                 })
                 .collect();
+            let produced_now = fs_after.get(t).map(|s| s.bytes.clone());
+            let changed_seq = match self.seen.get(t) {
+                Some(p)
+                    if p.ok
+                        && p.csum
+                        && csum
+                        && p.produced.as_ref().map(|b| strip_noise(b))
+                            == produced_now.as_ref().map(|b| strip_noise(b)) =>
+                {
+                    p.changed_seq
+                }
+                _ => self.seq,
+            };
             self.seen.insert(
                 t.clone(),
                 Seen {
@@ -473,6 +527,14 @@ impl SeenModel {
                     csum,
                     produced: fs_after.get(t).map(|s| s.bytes.clone()),
                     built_seq: self.seq,
+                    changed_seq,
+                    touches: std::iter::once(cand.do_path.clone())
+                        .chain(deps.iter().cloned())
+                        .map(|p| {
+                            let n = world.touch.get(&p).copied().unwrap_or(0);
+                            (p, n)
+                        })
+                        .collect(),
                 },
             );
         }
